@@ -1,0 +1,258 @@
+// Copyright 2020-2025 Buf Technologies, Inc.
+//
+// Licensed under the Apache License, Version 2.0 (the "License");
+// you may not use this file except in compliance with the License.
+// You may obtain a copy of the License at
+//
+//      http://www.apache.org/licenses/LICENSE-2.0
+//
+// Unless required by applicable law or agreed to in writing, software
+// distributed under the License is distributed on an "AS IS" BASIS,
+// WITHOUT WARRANTIES OR CONDITIONS OF ANY KIND, either express or implied.
+// See the License for the specific language governing permissions and
+// limitations under the License.
+
+//go:build verif
+
+package bufimage
+
+// Contracts for the gocv verifier: image assembly (C01, C02). Comment-only.
+// Spec functions (g_*) and the trusted protobuf-runtime contracts are in /verif/specs/C01.spec.
+//
+// Accessor purity (trusted): the compiled files are an abstract graph seen through these accessors.
+//@ trusted pure interface linker.File
+//@ trusted pure interface protoreflect.FileDescriptor
+//@ trusted pure interface protoreflect.FileImports
+//@ trusted pure interface ImageFile
+//
+// checkAndSortFiles: the result lists the compiled files in the order of the requested paths, whatever order
+// the (concurrent) compiler returned them in; duplicates, unnamed and missing files are errors.
+//@ func checkAndSortFiles(fileDescriptors, rootRelFilePaths) (r, err)
+//@   property C01 C02
+//@   ensures same-length: err == nil ==> len(r) == len(rootRelFilePaths)
+//@   ensures input-path-order: err == nil ==> (forall i int :: 0 <= i && i < len(rootRelFilePaths) ==> r[i].Path() == rootRelFilePaths[i])
+//@   ensures from-compiled: err == nil ==> (forall i int :: 0 <= i && i < len(r) ==> (exists j int :: 0 <= j && j < len(fileDescriptors) && fileDescriptors[j] == r[i]))
+//@   ensures duplicates-rejected: err == nil ==> (forall i int, j int :: 0 <= i && i < j && j < len(fileDescriptors) ==> fileDescriptors[i].Path() != fileDescriptors[j].Path())
+//@   ensures length-mismatch-rejected: len(fileDescriptors) != len(rootRelFilePaths) ==> err != nil
+//@   ensures unnamed-rejected: (exists j int :: 0 <= j && j < len(fileDescriptors) && fileDescriptors[j].Path() == "") ==> err != nil
+//@   ensures complete: len(fileDescriptors) == len(rootRelFilePaths) && (forall j int :: 0 <= j && j < len(fileDescriptors) ==> fileDescriptors[j].Path() != "") && (forall i int, j int :: 0 <= i && i < j && j < len(fileDescriptors) ==> fileDescriptors[i].Path() != fileDescriptors[j].Path()) && (forall i int :: 0 <= i && i < len(rootRelFilePaths) ==> (exists j int :: 0 <= j && j < len(fileDescriptors) && fileDescriptors[j].Path() == rootRelFilePaths[i])) ==> err == nil
+//@   loop 0 invariant nameToFileDescriptor != nil && (forall k string :: k in nameToFileDescriptor ==> nameToFileDescriptor[k].Path() == k && (exists j int :: 0 <= j && j < $i && fileDescriptors[j] == nameToFileDescriptor[k]))
+//@   loop 0 invariant forall j int :: 0 <= j && j < $i ==> fileDescriptors[j].Path() in nameToFileDescriptor && fileDescriptors[j].Path() != ""
+//@   loop 0 invariant forall i int, j int :: 0 <= i && i < j && j < $i ==> fileDescriptors[i].Path() != fileDescriptors[j].Path()
+//@   loop 1 invariant len(sortedFileDescriptors) == $i
+//@   loop 1 invariant forall i int :: 0 <= i && i < $i ==> sortedFileDescriptors[i].Path() == rootRelFilePaths[i] && (exists j int :: 0 <= j && j < len(fileDescriptors) && fileDescriptors[j] == sortedFileDescriptors[i])
+//@   canary ensures err != nil
+//
+// The thin lookups of the parser accessor handler (verified): what the image file is labelled with.
+//@ func (p *parserAccessorHandler) ExternalPath(path) (r)
+//@   property C01
+//@   ensures known-or-path: r == ite(path in p.pathToExternalPath && p.pathToExternalPath[path] != "", p.pathToExternalPath[path], path)
+//@ func (p *parserAccessorHandler) LocalPath(path) (r)
+//@   property C01
+//@   ensures r == ite(path in p.pathToLocalPath, p.pathToLocalPath[path], "")
+//@ func (p *parserAccessorHandler) FullName(path) (r)
+//@   property C01
+//@   ensures r == ite(path in p.pathToFullName, p.pathToFullName[path], nil)
+//@ func (p *parserAccessorHandler) CommitID(path) (r)
+//@   property C01
+//@   ensures path in p.pathToCommitID ==> r == p.pathToCommitID[path]
+//
+// NewImageFile stores what it is given (trusted: the link between the ImageFile interface and *imageFile is
+// dynamic dispatch; the documented interface invariant Path() == FileDescriptorProto().GetName()).
+//@ trusted func NewImageFile(fileDescriptor, moduleFullName, commitID, externalPath, localPath, isImport, isSyntaxUnspecified, unusedDependencyIndexes) (r, err)
+//@   ensures err == nil ==> r != nil && r.IsImport() == isImport && r.IsSyntaxUnspecified() == isSyntaxUnspecified
+//@   ensures err == nil ==> r.Path() == r.FileDescriptorProto().GetName()
+//@   ensures err == nil && typeOf(fileDescriptor) == typeId(*descriptorpb.FileDescriptorProto) ==> r.FileDescriptorProto() == fileDescriptor
+//@   ensures err == nil ==> len(r.UnusedDependencyIndexes()) == len(unusedDependencyIndexes) && (forall a int :: 0 <= a && a < len(unusedDependencyIndexes) ==> r.UnusedDependencyIndexes()[a] == unusedDependencyIndexes[a])
+//
+// getImageFilesRec: post-order DFS over the import graph. seen = alreadySeen, done = paths of imageFiles,
+// pending = seen \ done = the DFS stack. g_rank witnesses acyclicity (trusted fact about the linker's output,
+// stated as the precondition link-*): every pending file ranks above the file being visited, hence an import
+// that was already seen is already done when the importer is appended.
+//@ func getImageFilesRec(ctx, excludeSourceCodeInfo, fileDescriptor, parserAccessorHandler, syntaxUnspecifiedFilenames, filenameToUnusedDependencyFilenames, alreadySeen, nonImportFilenames, imageFiles) (r, err)
+//@   property C01
+//@   modifies alreadySeen, heap descriptorpb.FileDescriptorProto.SourceCodeInfo
+//@   reveal g_wellFormedLink, g_doneIn, g_deps, g_flagsOK
+//@   use g_unused_intro, g_unused_intro_absent, g_needed_mono, g_importOf_intro, g_importOf_mono, g_importOf_needed
+//@   requires link-well-formed: g_wellFormedLink()
+//@   requires link-member: fileDescriptor != nil ==> g_linked(fileDescriptor)
+//@   requires done-seen: forall k int :: 0 <= k && k < len(imageFiles) ==> imageFiles[k].Path() in alreadySeen
+//@   requires unique: forall a int, b int :: 0 <= a && a < b && b < len(imageFiles) ==> imageFiles[a].Path() != imageFiles[b].Path()
+//@   requires ordered: forall k int, d int :: 0 <= k && k < len(imageFiles) && 0 <= d && d < len(g_deps(imageFiles[k])) ==> g_doneIn(imageFiles, k, g_deps(imageFiles[k])[d])
+//@   requires pending-above: fileDescriptor != nil ==> (forall q string :: q in alreadySeen && !g_doneIn(imageFiles, len(imageFiles), q) ==> g_rank(q) > g_rank(fileDescriptor.Path()))
+//@   requires flags: forall k int :: 0 <= k && k < len(imageFiles) ==> g_flagsOK(imageFiles[k], dom(nonImportFilenames), dom(syntaxUnspecifiedFilenames))
+//@   requires nil-map-has-no-keys: forall p string, q string :: p in filenameToUnusedDependencyFilenames && filenameToUnusedDependencyFilenames[p] == nil ==> !(q in filenameToUnusedDependencyFilenames[p])
+//@   requires unused-indexes: forall k int :: 0 <= k && k < len(imageFiles) ==> g_unusedOK(imageFiles[k], ite(imageFiles[k].Path() in filenameToUnusedDependencyFilenames, 1, 0), dom(filenameToUnusedDependencyFilenames[imageFiles[k].Path()]))
+//@   ensures nil-rejected: fileDescriptor == nil ==> err != nil
+//@   ensures prefix-kept: err == nil ==> len(r) >= len(imageFiles) && (forall k int :: 0 <= k && k < len(imageFiles) ==> r[k] == imageFiles[k])
+//@   ensures seen-grows: forall q string :: q in old(alreadySeen) ==> q in alreadySeen
+//@   ensures done-seen: err == nil ==> (forall k int :: 0 <= k && k < len(r) ==> r[k].Path() in alreadySeen)
+//@   ensures each-path-once: err == nil ==> (forall a int, b int :: 0 <= a && a < b && b < len(r) ==> r[a].Path() != r[b].Path())
+//@   ensures imports-first: err == nil ==> (forall k int, d int :: 0 <= k && k < len(r) && 0 <= d && d < len(g_deps(r[k])) ==> g_doneIn(r, k, g_deps(r[k])[d]))
+//@   ensures visited-done: err == nil ==> g_doneIn(r, len(r), fileDescriptor.Path())
+//@   ensures newly-seen-done: err == nil ==> (forall q string :: q in alreadySeen ==> q in old(alreadySeen) || (exists k int :: len(imageFiles) <= k && k < len(r) && r[k].Path() == q))
+//@   ensures new-were-unseen: err == nil ==> (forall k int :: len(imageFiles) <= k && k < len(r) ==> !(r[k].Path() in old(alreadySeen)))
+//@   ensures flags: err == nil ==> (forall k int :: 0 <= k && k < len(r) ==> g_flagsOK(r[k], dom(nonImportFilenames), dom(syntaxUnspecifiedFilenames)))
+//@   ensures new-are-needed: err == nil ==> (forall k int :: len(imageFiles) <= k && k < len(r) ==> r[k].Path() == fileDescriptor.Path() || g_neededBy(r, len(r), k))
+//@   ensures unused-indexes: err == nil ==> (forall k int :: 0 <= k && k < len(r) ==> g_unusedOK(r[k], ite(r[k].Path() in filenameToUnusedDependencyFilenames, 1, 0), dom(filenameToUnusedDependencyFilenames[r[k].Path()])))
+//@   assert before "return append(imageFiles, imageFile), nil" new-file-is-visited: imageFile.Path() == path && len(g_deps(imageFile)) == fileDescriptor.Imports().Len()
+//@   assert before "return append(imageFiles, imageFile), nil" new-file-imports-done: forall d int :: 0 <= d && d < len(g_deps(imageFile)) ==> g_doneIn(imageFiles, len(imageFiles), g_deps(imageFile)[d])
+//@   assert before "return append(imageFiles, imageFile), nil" new-file-unused-increasing: forall a int, b int :: 0 <= a && a < b && b < len(imageFile.UnusedDependencyIndexes()) ==> imageFile.UnusedDependencyIndexes()[a] < imageFile.UnusedDependencyIndexes()[b]
+//@   assert before "return append(imageFiles, imageFile), nil" new-file-unused-sound: forall a int :: 0 <= a && a < len(imageFile.UnusedDependencyIndexes()) ==> 0 <= imageFile.UnusedDependencyIndexes()[a] && imageFile.UnusedDependencyIndexes()[a] < len(g_deps(imageFile)) && path in filenameToUnusedDependencyFilenames && g_deps(imageFile)[imageFile.UnusedDependencyIndexes()[a]] in dom(filenameToUnusedDependencyFilenames[path])
+//@   assert before "return append(imageFiles, imageFile), nil" new-file-unused-complete: forall d int :: 0 <= d && d < len(g_deps(imageFile)) && path in filenameToUnusedDependencyFilenames && g_deps(imageFile)[d] in dom(filenameToUnusedDependencyFilenames[path]) ==> (exists a int :: 0 <= a && a < len(imageFile.UnusedDependencyIndexes()) && imageFile.UnusedDependencyIndexes()[a] == d)
+//@   assert before "return append(imageFiles, imageFile), nil" new-file-unused-absent: !(path in filenameToUnusedDependencyFilenames) ==> len(imageFile.UnusedDependencyIndexes()) == 0
+//@   assert before "return append(imageFiles, imageFile), nil" new-file-unused: g_unusedOK(imageFile, ite(path in filenameToUnusedDependencyFilenames, 1, 0), dom(filenameToUnusedDependencyFilenames[path]))
+//@   loop 0 invariant unused-indexes: forall k int :: 0 <= k && k < len(imageFiles) ==> g_unusedOK(imageFiles[k], ite(imageFiles[k].Path() in filenameToUnusedDependencyFilenames, 1, 0), dom(filenameToUnusedDependencyFilenames[imageFiles[k].Path()]))
+//@   loop 0 invariant new-needed: forall k int :: len(old(imageFiles)) <= k && k < len(imageFiles) ==> g_importOf(fileDescriptor, $i, imageFiles[k].Path()) || g_neededBy(imageFiles, len(imageFiles), k)
+//@   loop 0 invariant unused-none: !ok ==> len(unusedDependencyIndexes) == 0
+//@   loop 0 invariant unused-increasing: forall a int, b int :: 0 <= a && a < b && b < len(unusedDependencyIndexes) ==> unusedDependencyIndexes[a] < unusedDependencyIndexes[b]
+//@   loop 0 invariant unused-sound: forall a int :: 0 <= a && a < len(unusedDependencyIndexes) ==> 0 <= unusedDependencyIndexes[a] && unusedDependencyIndexes[a] < $i && ok && fileDescriptor.Imports().Get(unusedDependencyIndexes[a]).FileDescriptor.Path() in unusedDependencyFilenames
+//@   loop 0 invariant unused-complete: forall j int :: 0 <= j && j < $i && ok && unusedDependencyFilenames != nil && fileDescriptor.Imports().Get(j).FileDescriptor.Path() in unusedDependencyFilenames ==> (exists a int :: 0 <= a && a < len(unusedDependencyIndexes) && unusedDependencyIndexes[a] == j)
+//@   loop 0 invariant prefix: len(imageFiles) >= len(old(imageFiles)) && (forall k int :: 0 <= k && k < len(old(imageFiles)) ==> imageFiles[k] == old(imageFiles)[k])
+//@   loop 0 invariant seen-grows: path in alreadySeen && (forall q string :: q in old(alreadySeen) ==> q in alreadySeen)
+//@   loop 0 invariant done-seen: forall k int :: 0 <= k && k < len(imageFiles) ==> imageFiles[k].Path() in alreadySeen
+//@   loop 0 invariant unique: forall a int, b int :: 0 <= a && a < b && b < len(imageFiles) ==> imageFiles[a].Path() != imageFiles[b].Path()
+//@   loop 0 invariant ordered: forall k int, d int :: 0 <= k && k < len(imageFiles) && 0 <= d && d < len(g_deps(imageFiles[k])) ==> g_doneIn(imageFiles, k, g_deps(imageFiles[k])[d])
+//@   loop 0 invariant imports-done: forall j int :: 0 <= j && j < $i ==> g_doneIn(imageFiles, len(imageFiles), fileDescriptor.Imports().Get(j).FileDescriptor.Path())
+//@   loop 0 invariant newly-seen: forall q string :: q in alreadySeen ==> q == path || q in old(alreadySeen) || (exists k int :: len(old(imageFiles)) <= k && k < len(imageFiles) && imageFiles[k].Path() == q)
+//@   loop 0 invariant new-unseen: forall k int :: len(old(imageFiles)) <= k && k < len(imageFiles) ==> !(imageFiles[k].Path() in old(alreadySeen)) && imageFiles[k].Path() != path
+//@   loop 0 invariant flags: forall k int :: 0 <= k && k < len(imageFiles) ==> g_flagsOK(imageFiles[k], dom(nonImportFilenames), dom(syntaxUnspecifiedFilenames))
+//@   canary ensures err != nil
+//@   canary ensures err == nil ==> len(r) == len(imageFiles)
+//
+// orderImageFilesRec / orderImageFiles: the same post-order DFS over the dependency PATHS recorded in the image
+// files, resolved through pathToImageFile (dependencies that are not part of the image are skipped).
+// g_rank on paths is again the witness of acyclicity (precondition acyclic).
+//@ func orderImageFilesRec(inputImageFile, outputImageFiles, pathToImageFile, alreadySeen) (r)
+//@   property C01
+//@   modifies alreadySeen
+//@   reveal g_doneIn, g_deps
+//@   requires keyed: forall p string :: p in pathToImageFile ==> pathToImageFile[p].Path() == p
+//@   requires acyclic: forall p string, d int :: p in pathToImageFile && 0 <= d && d < len(g_deps(pathToImageFile[p])) ==> g_rank(g_deps(pathToImageFile[p])[d]) < g_rank(p)
+//@   requires member: inputImageFile.Path() in pathToImageFile && pathToImageFile[inputImageFile.Path()] == inputImageFile
+//@   requires done-seen: forall k int :: 0 <= k && k < len(outputImageFiles) ==> outputImageFiles[k].Path() in alreadySeen
+//@   requires unique: forall a int, b int :: 0 <= a && a < b && b < len(outputImageFiles) ==> outputImageFiles[a].Path() != outputImageFiles[b].Path()
+//@   requires ordered: forall k int, d int :: 0 <= k && k < len(outputImageFiles) && 0 <= d && d < len(g_deps(outputImageFiles[k])) && g_deps(outputImageFiles[k])[d] in pathToImageFile ==> g_doneIn(outputImageFiles, k, g_deps(outputImageFiles[k])[d])
+//@   requires pending-above: forall q string :: q in alreadySeen && !g_doneIn(outputImageFiles, len(outputImageFiles), q) ==> g_rank(q) > g_rank(inputImageFile.Path())
+//@   requires from-map: forall k int :: 0 <= k && k < len(outputImageFiles) ==> outputImageFiles[k].Path() in pathToImageFile && pathToImageFile[outputImageFiles[k].Path()] == outputImageFiles[k]
+//@   ensures prefix-kept: len(r) >= len(outputImageFiles) && (forall k int :: 0 <= k && k < len(outputImageFiles) ==> r[k] == outputImageFiles[k])
+//@   ensures seen-grows: forall q string :: q in old(alreadySeen) ==> q in alreadySeen
+//@   ensures done-seen: forall k int :: 0 <= k && k < len(r) ==> r[k].Path() in alreadySeen
+//@   ensures each-path-once: forall a int, b int :: 0 <= a && a < b && b < len(r) ==> r[a].Path() != r[b].Path()
+//@   ensures dependencies-first: forall k int, d int :: 0 <= k && k < len(r) && 0 <= d && d < len(g_deps(r[k])) && g_deps(r[k])[d] in pathToImageFile ==> g_doneIn(r, k, g_deps(r[k])[d])
+//@   ensures visited-done: g_doneIn(r, len(r), inputImageFile.Path())
+//@   ensures newly-seen-done: forall q string :: q in alreadySeen ==> q in old(alreadySeen) || (exists k int :: len(outputImageFiles) <= k && k < len(r) && r[k].Path() == q)
+//@   ensures new-were-unseen: forall k int :: len(outputImageFiles) <= k && k < len(r) ==> !(r[k].Path() in old(alreadySeen))
+//@   ensures from-map: forall k int :: 0 <= k && k < len(r) ==> r[k].Path() in pathToImageFile && pathToImageFile[r[k].Path()] == r[k]
+//@   loop 0 invariant prefix: len(outputImageFiles) >= len(old(outputImageFiles)) && (forall k int :: 0 <= k && k < len(old(outputImageFiles)) ==> outputImageFiles[k] == old(outputImageFiles)[k])
+//@   loop 0 invariant seen-grows: path in alreadySeen && (forall q string :: q in old(alreadySeen) ==> q in alreadySeen)
+//@   loop 0 invariant done-seen: forall k int :: 0 <= k && k < len(outputImageFiles) ==> outputImageFiles[k].Path() in alreadySeen
+//@   loop 0 invariant unique: forall a int, b int :: 0 <= a && a < b && b < len(outputImageFiles) ==> outputImageFiles[a].Path() != outputImageFiles[b].Path()
+//@   loop 0 invariant ordered: forall k int, d int :: 0 <= k && k < len(outputImageFiles) && 0 <= d && d < len(g_deps(outputImageFiles[k])) && g_deps(outputImageFiles[k])[d] in pathToImageFile ==> g_doneIn(outputImageFiles, k, g_deps(outputImageFiles[k])[d])
+//@   loop 0 invariant deps-done: forall j int :: 0 <= j && j < $i && g_deps(inputImageFile)[j] in pathToImageFile ==> g_doneIn(outputImageFiles, len(outputImageFiles), g_deps(inputImageFile)[j])
+//@   loop 0 invariant newly-seen: forall q string :: q in alreadySeen ==> q == path || q in old(alreadySeen) || (exists k int :: len(old(outputImageFiles)) <= k && k < len(outputImageFiles) && outputImageFiles[k].Path() == q)
+//@   loop 0 invariant new-unseen: forall k int :: len(old(outputImageFiles)) <= k && k < len(outputImageFiles) ==> !(outputImageFiles[k].Path() in old(alreadySeen)) && outputImageFiles[k].Path() != path
+//@   loop 0 invariant from-map: forall k int :: 0 <= k && k < len(outputImageFiles) ==> outputImageFiles[k].Path() in pathToImageFile && pathToImageFile[outputImageFiles[k].Path()] == outputImageFiles[k]
+//
+//@ func orderImageFiles(inputImageFiles, pathToImageFile) (r)
+//@   property C01
+//@   reveal g_doneIn, g_deps
+//@   requires keyed: forall p string :: p in pathToImageFile ==> pathToImageFile[p].Path() == p
+//@   requires acyclic: forall p string, d int :: p in pathToImageFile && 0 <= d && d < len(g_deps(pathToImageFile[p])) ==> g_rank(g_deps(pathToImageFile[p])[d]) < g_rank(p)
+//@   requires members: forall j int :: 0 <= j && j < len(inputImageFiles) ==> inputImageFiles[j].Path() in pathToImageFile && pathToImageFile[inputImageFiles[j].Path()] == inputImageFiles[j]
+//@   ensures each-path-once: forall a int, b int :: 0 <= a && a < b && b < len(r) ==> r[a].Path() != r[b].Path()
+//@   ensures dependencies-first: forall k int, d int :: 0 <= k && k < len(r) && 0 <= d && d < len(g_deps(r[k])) && g_deps(r[k])[d] in pathToImageFile ==> g_doneIn(r, k, g_deps(r[k])[d])
+//@   ensures all-inputs-kept: forall j int :: 0 <= j && j < len(inputImageFiles) ==> g_doneIn(r, len(r), inputImageFiles[j].Path())
+//@   ensures only-image-files: forall k int :: 0 <= k && k < len(r) ==> r[k].Path() in pathToImageFile && pathToImageFile[r[k].Path()] == r[k]
+//@   loop 0 invariant done-seen: forall k int :: 0 <= k && k < len(outputImageFiles) ==> outputImageFiles[k].Path() in alreadySeen
+//@   loop 0 invariant seen-done: forall q string :: q in alreadySeen ==> g_doneIn(outputImageFiles, len(outputImageFiles), q)
+//@   loop 0 invariant unique: forall a int, b int :: 0 <= a && a < b && b < len(outputImageFiles) ==> outputImageFiles[a].Path() != outputImageFiles[b].Path()
+//@   loop 0 invariant ordered: forall k int, d int :: 0 <= k && k < len(outputImageFiles) && 0 <= d && d < len(g_deps(outputImageFiles[k])) && g_deps(outputImageFiles[k])[d] in pathToImageFile ==> g_doneIn(outputImageFiles, k, g_deps(outputImageFiles[k])[d])
+//@   loop 0 invariant inputs-done: forall j int :: 0 <= j && j < $i ==> g_doneIn(outputImageFiles, len(outputImageFiles), inputImageFiles[j].Path())
+//@   loop 0 invariant from-map: forall k int :: 0 <= k && k < len(outputImageFiles) ==> outputImageFiles[k].Path() in pathToImageFile && pathToImageFile[outputImageFiles[k].Path()] == outputImageFiles[k]
+//
+// newImage: an image never holds two files with the same path, and is never empty; without reorder the files
+// are kept in the order given.
+//@ func newImage(files, reorder, resolver) (r, err)
+//@   property C01
+//@   modifies heap
+//@   reveal g_doneIn, g_deps
+//@   requires acyclic-if-reorder: reorder ==> (forall a int, d int :: 0 <= a && a < len(files) && 0 <= d && d < len(g_deps(files[a])) ==> g_rank(g_deps(files[a])[d]) < g_rank(files[a].Path()))
+//@   ensures non-empty: err == nil ==> r != nil && len(files) > 0
+//@   ensures duplicates-rejected: err == nil ==> (forall a int, b int :: 0 <= a && a < b && b < len(files) ==> files[a].Path() != files[b].Path())
+//@   ensures empty-rejected: len(files) == 0 ==> err != nil
+//@   ensures order-kept: err == nil && !reorder ==> r.files == files
+//@   ensures indexed-by-path: err == nil ==> (forall j int :: 0 <= j && j < len(files) ==> files[j].Path() in r.pathToImageFile && r.pathToImageFile[files[j].Path()] == files[j])
+//@   ensures index-only-files: err == nil ==> (forall p string :: p in r.pathToImageFile ==> (exists j int :: 0 <= j && j < len(files) && files[j].Path() == p))
+//@   ensures each-path-once: err == nil ==> (forall a int, b int :: 0 <= a && a < b && b < len(r.files) ==> r.files[a].Path() != r.files[b].Path())
+//@   ensures reordered-dependencies-first: err == nil && reorder ==> (forall k int, d int :: 0 <= k && k < len(r.files) && 0 <= d && d < len(g_deps(r.files[k])) && g_deps(r.files[k])[d] in r.pathToImageFile ==> g_doneIn(r.files, k, g_deps(r.files[k])[d]))
+//@   ensures reordered-keeps-all: err == nil ==> (forall j int :: 0 <= j && j < len(files) ==> g_doneIn(r.files, len(r.files), files[j].Path()))
+//@   ensures reordered-only-files: err == nil ==> (forall k int :: 0 <= k && k < len(r.files) ==> (exists j int :: 0 <= j && j < len(files) && files[j] == r.files[k]))
+//@   loop 0 invariant pathToImageFile != nil && (forall p string :: p in pathToImageFile ==> (exists j int :: 0 <= j && j < $i && files[j].Path() == p && pathToImageFile[p] == files[j]))
+//@   loop 0 invariant forall j int :: 0 <= j && j < $i ==> files[j].Path() in pathToImageFile && pathToImageFile[files[j].Path()] == files[j]
+//@   loop 0 invariant forall a int, b int :: 0 <= a && a < b && b < $i ==> files[a].Path() != files[b].Path()
+//@   canary ensures err != nil
+//
+//@ func (i *image) Files() (r)
+//@   property C01
+//@   ensures r == i.files
+//@ func (i *image) GetFile(path) (r)
+//@   property C01
+//@   ensures r == ite(path in i.pathToImageFile, i.pathToImageFile[path], nil)
+//
+// newResolverForFiles builds a lookup structure only (trusted: it neither fails nor touches the files).
+//@ trusted func newResolverForFiles(files, symbols) (r)
+//@   ensures r != nil
+//
+// getImage: THE C01 statement for the assembly step. With F = the files of the built image and T = sortedFiles
+// (the compiled target files, in target order):
+//   each path once; every file after all the files it imports (so the image is import-closed); every target
+//   present; a file is marked import iff it is not a target; the syntax-unspecified marker is the compiler's.
+// Trusted input fact (precondition link-*): the linker's result is an import-closed, acyclic set of files.
+//@ func getImage(ctx, excludeSourceCodeInfo, sortedFiles, symbols, parserAccessorHandler, syntaxUnspecifiedFilenames, filenameToUnusedDependencyFilenames) (r, err)
+//@   property C01
+//@   modifies heap
+//@   reveal g_wellFormedLink, g_doneIn, g_deps, g_flagsOK
+//@   use g_needed_mono
+//@   requires link-well-formed: g_wellFormedLink()
+//@   requires nil-map-has-no-keys: forall p string, q string :: p in filenameToUnusedDependencyFilenames && filenameToUnusedDependencyFilenames[p] == nil ==> !(q in filenameToUnusedDependencyFilenames[p])
+//@   requires link-members: forall t int :: 0 <= t && t < len(sortedFiles) && sortedFiles[t] != nil ==> g_linked(sortedFiles[t])
+//@   ensures built: err == nil ==> r != nil && len(cast(*image, r).files) > 0
+//@   ensures each-path-once: err == nil ==> (forall a int, b int :: 0 <= a && a < b && b < len(cast(*image, r).files) ==> cast(*image, r).files[a].Path() != cast(*image, r).files[b].Path())
+//@   ensures imports-first: err == nil ==> (forall k int, d int :: 0 <= k && k < len(cast(*image, r).files) && 0 <= d && d < len(g_deps(cast(*image, r).files[k])) ==> (exists j int :: 0 <= j && j < k && cast(*image, r).files[j].Path() == g_deps(cast(*image, r).files[k])[d]))
+//@   ensures targets-present: err == nil ==> (forall t int :: 0 <= t && t < len(sortedFiles) ==> (exists j int :: 0 <= j && j < len(cast(*image, r).files) && cast(*image, r).files[j].Path() == sortedFiles[t].Path()))
+//@   ensures targets-marked-non-import: err == nil ==> (forall k int, t int :: 0 <= k && k < len(cast(*image, r).files) && 0 <= t && t < len(sortedFiles) && sortedFiles[t].Path() == cast(*image, r).files[k].Path() ==> !cast(*image, r).files[k].IsImport())
+//@   ensures others-marked-import: err == nil ==> (forall k int :: 0 <= k && k < len(cast(*image, r).files) && (forall t int :: 0 <= t && t < len(sortedFiles) ==> sortedFiles[t].Path() != cast(*image, r).files[k].Path()) ==> cast(*image, r).files[k].IsImport())
+//@   ensures syntax-unspecified-marker: err == nil ==> (forall k int :: 0 <= k && k < len(cast(*image, r).files) ==> (cast(*image, r).files[k].IsSyntaxUnspecified() <==> cast(*image, r).files[k].Path() in syntaxUnspecifiedFilenames))
+//@   ensures only-targets-and-their-imports: err == nil ==> (forall k int :: 0 <= k && k < len(cast(*image, r).files) ==> (exists t int :: 0 <= t && t < len(sortedFiles) && sortedFiles[t].Path() == cast(*image, r).files[k].Path()) || g_neededBy(cast(*image, r).files, len(cast(*image, r).files), k))
+//@   ensures unused-dependency-indexes: err == nil ==> (forall k int :: 0 <= k && k < len(cast(*image, r).files) ==> g_unusedOK(cast(*image, r).files[k], ite(cast(*image, r).files[k].Path() in filenameToUnusedDependencyFilenames, 1, 0), dom(filenameToUnusedDependencyFilenames[cast(*image, r).files[k].Path()])))
+//@   loop 0 invariant non-nil: nonImportFilenames != nil
+//@   loop 0 invariant targets: forall q string :: q in nonImportFilenames <==> (exists t int :: 0 <= t && t < $i && sortedFiles[t].Path() == q)
+//@   loop 1 invariant done-seen: forall k int :: 0 <= k && k < len(imageFiles) ==> imageFiles[k].Path() in alreadySeen
+//@   loop 1 invariant seen-done: forall q string :: q in alreadySeen ==> g_doneIn(imageFiles, len(imageFiles), q)
+//@   loop 1 invariant unique: forall a int, b int :: 0 <= a && a < b && b < len(imageFiles) ==> imageFiles[a].Path() != imageFiles[b].Path()
+//@   loop 1 invariant ordered: forall k int, d int :: 0 <= k && k < len(imageFiles) && 0 <= d && d < len(g_deps(imageFiles[k])) ==> g_doneIn(imageFiles, k, g_deps(imageFiles[k])[d])
+//@   loop 1 invariant targets-done: forall t int :: 0 <= t && t < $i ==> g_doneIn(imageFiles, len(imageFiles), sortedFiles[t].Path())
+//@   loop 1 invariant flags: forall k int :: 0 <= k && k < len(imageFiles) ==> g_flagsOK(imageFiles[k], dom(nonImportFilenames), dom(syntaxUnspecifiedFilenames))
+//@   loop 1 invariant needed: forall k int :: 0 <= k && k < len(imageFiles) ==> (exists t int :: 0 <= t && t < $i && sortedFiles[t].Path() == imageFiles[k].Path()) || g_neededBy(imageFiles, len(imageFiles), k)
+//@   loop 1 invariant unused-indexes: forall k int :: 0 <= k && k < len(imageFiles) ==> g_unusedOK(imageFiles[k], ite(imageFiles[k].Path() in filenameToUnusedDependencyFilenames, 1, 0), dom(filenameToUnusedDependencyFilenames[imageFiles[k].Path()]))
+//@   canary ensures err != nil
+//@   canary ensures err == nil ==> false
+//@   canary ensures err == nil ==> (forall k int :: 0 <= k && k < len(cast(*image, r).files) ==> g_neededBy(cast(*image, r).files, len(cast(*image, r).files), k))
+//
+// The two warning collectors that feed getImage: a compiler warning marks exactly the file it is positioned in.
+//@ trusted pure interface reporter.ErrorWithPos
+//@ trusted pure interface linker.ErrorUnusedImport
+//@ func maybeAddSyntaxUnspecified(syntaxUnspecifiedFilenames, errorWithPos)
+//@   property C01
+//@   modifies syntaxUnspecifiedFilenames
+//@   ensures marks-the-file-of-a-no-syntax-warning: forall q string :: q in syntaxUnspecifiedFilenames <==> (q in old(syntaxUnspecifiedFilenames) || (errorWithPos.Unwrap() == parser.ErrNoSyntax && q == errorWithPos.GetPosition().Filename))
+//
+//@ func maybeAddUnusedImport(filenameToUnusedImportFilenames, errorWithPos)
+//@   property C01
+//@   modifies filenameToUnusedImportFilenames
+//@   ensures keeps-earlier-reports: forall p string, q string :: p in old(filenameToUnusedImportFilenames) && q in old(filenameToUnusedImportFilenames)[p] ==> p in filenameToUnusedImportFilenames && q in filenameToUnusedImportFilenames[p]
+//@   ensures adds-only-the-reported-import: forall p string, q string :: p in filenameToUnusedImportFilenames && q in filenameToUnusedImportFilenames[p] ==> (p in old(filenameToUnusedImportFilenames) && q in old(filenameToUnusedImportFilenames)[p]) || (p == errorWithPos.GetPosition().Filename && q == cast(linker.ErrorUnusedImport, errorWithPos.Unwrap()).UnusedImport())
+//
+// (bufimage/util.go addFileWithImports / getImageWithImports / NewImage: the same DFS, under contract in
+// zz_verif_contracts_targeting.go, property C11.)
